@@ -17,7 +17,9 @@ def gen(rnd, k):
     opts = {"p_div": 0.8, "p_split": 0.5, "p_delist": 0.35, "p_expire": 0.6}
     if k % 7 == 6:
         opts["overlap_div"] = True
-    S = B.gen_market(rnd, ndays=rnd.randrange(12, 26), opts=opts)
+    if k % 5 == 4:
+        opts["p_delist"] = 0.5         # the runs with a share conversion need a stock that delists inside the run and one that does not
+    S = B.gen_market(rnd, ndays=rnd.randrange(12, 26), opts=opts, **({"n_stocks": 3} if k % 5 == 4 else {}))
     if k % 5 == 4 and len(S["stocks"]) >= 2:
         # share conversion: the first delisting stock converts into another stock
         dl = [s for s in S["stocks"] if s["delisted"] is not None]
